@@ -78,7 +78,9 @@ class P(Prop):
             "are executed on the crate and compared bit for bit; contents: subnormals, -0.0, extremes, +-inf (binary formats), random "
             "bit patterns; every type once with +-inf in every position and once with +-f64::MAX / its neighbour / smallest subnormal / "
             "-0.0 in every position and once with whole numbers (2^k, around 2^63 / 1e19, ...); piecewise serialisations preceded by "
-            "a failed attempt (3-byte writer, or a NaN-carrying value borsh refuses). non-trivial = contains a number whose bits are not those of a small integer; distinct by input")
+            "a failed attempt (3-byte writer, or a NaN-carrying value borsh refuses); JSON is read back from borrowed text, from a "
+            "reader and from the Value tree, CBOR from a slice and a reader, borsh from a slice and from readers returning 1..33 "
+            "bytes per call; segment counts around 127/128, 255/256, 511/512. non-trivial = contains a number whose bits are not those of a small integer; distinct by input")
     TRUSTED = ["wire model (shapes of the derives) hand-written, tied by correspondence; the theorem covers the borsh byte codec",
                "float <-> text conversion (ryu, serde_json parser) and serde_cbor are exercised, not modelled"]
     ASSUMPTIONS = ["without the borsh feature only the serde part applies; the harness builds the crate with the feature on"]
@@ -125,7 +127,7 @@ class P(Prop):
         for _ in range(40 if tier == "quick" else 500):
             t = rng.choice(G.ALL_TYPES)
             n = G.arity(t) + 1
-            cnt = rng.choice([0, 1, 2, 3, 5, 8, rng.randint(0, 30), rng.choice([52, 103, 171, 257, 300])])
+            cnt = rng.choice([0, 1, 2, 3, 5, 8, rng.randint(0, 30), rng.choice([52, 103, 127, 128, 171, 254, 255, 255, 256, 257, 300, 511, 512])])
             fin = rng.random() < 0.6
             segs = [[self.num(rng, fin) for _ in range(n)] for _ in range(cnt)]
             if cnt and rng.random() < 0.3:
